@@ -478,8 +478,9 @@ class OscBundle(object):
                 elif OscMessage.dgram_is_message(content_dgram):
                     contents.append(OscMessage(content_dgram))
                 else:
-                    _logger.warning('Could not identify content type '
-                                    f'of dgram {content_dgram}')
+                    raise OscBundleParseError(
+                        'Could not identify content type '
+                        f'of dgram {content_dgram}')
         except (OscTypeParseError, OscMessageParseError, IndexError) as e:
             raise OscBundleParseError(
                 "Could not parse a content datagram") from e
